@@ -120,3 +120,6 @@ func (v V) JSON() any {
 }
 
 func (v V) Equal(w V) bool { return v.Coq() == w.Coq() }
+
+// Items returns the elements of a list value (nil for scalars).
+func (v V) Items() []V { return v.l }
